@@ -80,10 +80,11 @@ func goEnv() []string {
 
 // Probes: expressions the sort-then-emit sites order by, read from the source (element written `e`).
 type Probes struct {
-	ThrowsDedupKey string    // index expression of `fm[...] = e` in ServiceThrows
-	ThrowsLess     [3]string // left operand, operator, right operand of the sort.Slice comparator in ServiceThrows
-	TypeNameString string    // what (TypeName).String returns
-	FieldsLess     [3]string // comparator of fastgo getSortedFields
+	ThrowsDedupKey string      // index expression of `fm[...] = e` in ServiceThrows
+	ThrowsLess     [3]string   // left operand, operator, right operand of the sort.Slice comparator in ServiceThrows
+	TypeNameString string      // what (TypeName).String returns
+	FieldsLess     [3]string   // comparator of fastgo getSortedFields
+	RenderLoops    [][3]string // (package, function, what the loop that renders one IDL per iteration ranges over)
 }
 
 var probes Probes
@@ -156,6 +157,7 @@ func inventory(repo string) ([]Site, []string, [][2]string, error) {
 		}
 		pkgsOfModule = append(pkgsOfModule, rel)
 		for _, af := range files {
+			probeRenderLoops(af, info, rel)
 			sites = append(sites, sitesOfFile(fset, af, info, tp, rel)...)
 			if rel == "generator/golang" {
 				if t, ok := stdTable(af, info); ok {
@@ -183,6 +185,52 @@ func inventory(repo string) ([]Site, []string, [][2]string, error) {
 	})
 	sort.Strings(pkgsOfModule)
 	return sites, pkgsOfModule, std, nil
+}
+
+// probeRenderLoops: in the two backends, the loop whose body renders one IDL (calls renderOneFile /
+// GenerateOne) — what kind of thing does it range over? The output names are given first come first
+// served by FileManager.Feed, so that order must be a sequence (today: the DepthFirstSearch channel).
+func probeRenderLoops(af *ast.File, info *types.Info, rel string) {
+	want := map[string]string{"generator/golang": "renderOneFile", "generator/fastgo": "GenerateOne"}[rel]
+	if want == "" {
+		return
+	}
+	for _, d := range af.Decls {
+		fd, ok := d.(*ast.FuncDecl)
+		if !ok || fd.Body == nil {
+			continue
+		}
+		ast.Inspect(fd.Body, func(n ast.Node) bool {
+			rs, ok := n.(*ast.RangeStmt)
+			if !ok {
+				return true
+			}
+			calls := false
+			ast.Inspect(rs.Body, func(m ast.Node) bool {
+				if c, ok := m.(*ast.CallExpr); ok {
+					if sel, ok := c.Fun.(*ast.SelectorExpr); ok && sel.Sel.Name == want {
+						calls = true
+					}
+				}
+				return true
+			})
+			if calls {
+				kind := "?"
+				if tv, ok := info.Types[rs.X]; ok && tv.Type != nil {
+					switch tv.Type.Underlying().(type) {
+					case *types.Chan:
+						kind = "chan"
+					case *types.Map:
+						kind = "map"
+					case *types.Slice, *types.Array:
+						kind = "slice"
+					}
+				}
+				probes.RenderLoops = append(probes.RenderLoops, [3]string{rel, recvName(fd), kind})
+			}
+			return true
+		})
+	}
 }
 
 // lessOf reads `sort.Slice(xs, func(i, j int) bool { return L op R })` and renames xs[i], xs[j] to e.
@@ -499,6 +547,18 @@ func renderLean(sites []Site, pkgs []string, std [][2]string) string {
 	fmt.Fprintf(&sb, "def typeNameString : String := %s\n", leanStr(probes.TypeNameString))
 	sb.WriteString("/-- fastgo getSortedFields: the comparator of its `sort.Slice` -/\n")
 	fmt.Fprintf(&sb, "def sortedFieldsLess : String × String × String := (%s, %s, %s)\n", leanStr(probes.FieldsLess[0]), leanStr(probes.FieldsLess[1]), leanStr(probes.FieldsLess[2]))
+	sb.WriteString("/-- the loops that render one IDL per iteration (they call renderOneFile / GenerateOne): what they range over -/\n")
+	sb.WriteString("def renderLoops : List (String × String × String) := [")
+	sort.Slice(probes.RenderLoops, func(i, j int) bool {
+		return probes.RenderLoops[i][0]+probes.RenderLoops[i][1] < probes.RenderLoops[j][0]+probes.RenderLoops[j][1]
+	})
+	for i, l := range probes.RenderLoops {
+		if i > 0 {
+			sb.WriteString(", ")
+		}
+		fmt.Fprintf(&sb, "(%s, %s, %s)", leanStr(l[0]), leanStr(l[1]), leanStr(l[2]))
+	}
+	sb.WriteString("]\n")
 	sb.WriteString("\nend Generated.C07\n")
 	return sb.String()
 }
